@@ -1,5 +1,6 @@
 import MaddyVerif.Model.Queue
 import MaddyVerif.Model.QueueHop
+import MaddyVerif.Model.QueueRestart
 /-!
 # C01 — every queued recipient ends in exactly one terminal outcome
 
@@ -1126,5 +1127,161 @@ example :
 /-- the hypotheses of `C01_hop_exactly_one_outcome` are satisfiable -/
 example := C01_hop_exactly_one_outcome 3 .remote demoScript (fun _ => false) (fun _ => 0) 1 [1, 2, 3]
   (by decide) (by decide) (by decide) (by intro r _; decide) (by intro h; exact absurd rfl h)
+
+end MaddyVerif.C01
+
+/-! ## restarts of the server and the format of the failure report (`Model/QueueRestart.lean`) -/
+namespace MaddyVerif.C01
+open MaddyVerif.Queue MaddyVerif.QueueRestart
+
+/-- What `readMessageMeta` reads is what `updateMetadataOnDisk` wrote, nil-ness of the maps included. -/
+theorem load_store (m : MetaN) : load (store m) = m := rfl
+
+theorem reload_eq (n : Nat) (m : MetaN) : reload n m = m := by
+  induction n with
+  | zero => rfl
+  | succ n ih => simp [reload, load_store, ih]
+
+theorem metaFor_eq (restarts : Nat → Nat) (i : Nat) (m : MetaN) : metaFor restarts i m = m := by
+  unfold metaFor; split <;> simp [reload_eq]
+
+theorem classify_mem (maxTries : Nat) (e : Errs) (l : List Addr) (a : Acc) :
+    (∀ r ∈ (classify maxTries e l a).failedR, r ∈ a.failedR ∨ r ∈ l) ∧
+    (∀ r ∈ (classify maxTries e l a).newR, r ∈ a.newR ∨ r ∈ l) := by
+  induction l generalizing a with
+  | nil => simp [classify]
+  | cons x rest ih =>
+    unfold classify
+    split
+    · have := ih a
+      exact ⟨fun r hr => (this.1 r hr).elim Or.inl (fun h => Or.inr (List.mem_cons_of_mem _ h)),
+             fun r hr => (this.2 r hr).elim Or.inl (fun h => Or.inr (List.mem_cons_of_mem _ h))⟩
+    · split
+      · have := ih { a with tries := updTries a.tries x 0, failedR := a.failedR ++ [x] }
+        refine ⟨fun r hr => ?_, fun r hr => ?_⟩
+        · rcases this.1 r hr with h | h
+          · simp at h; rcases h with h | h
+            · exact Or.inl h
+            · exact Or.inr (h ▸ List.mem_cons_self)
+          · exact Or.inr (List.mem_cons_of_mem _ h)
+        · exact (this.2 r hr).elim Or.inl (fun h => Or.inr (List.mem_cons_of_mem _ h))
+      · have := ih { a with tries := updTries a.tries x (a.tries x + 1), newR := a.newR ++ [x] }
+        refine ⟨fun r hr => ?_, fun r hr => ?_⟩
+        · exact (this.1 r hr).elim Or.inl (fun h => Or.inr (List.mem_cons_of_mem _ h))
+        · rcases this.2 r hr with h | h
+          · simp at h; rcases h with h | h
+            · exact Or.inl h
+            · exact Or.inr (h ▸ List.mem_cons_self)
+          · exact Or.inr (List.mem_cons_of_mem _ h)
+
+/-- In a well-formed envelope the report of any set of pending recipients can be generated. -/
+theorem genOk_of_wellFormed (env : Env) (to failed : List Addr) (hw : env.wellFormed to)
+    (hsub : ∀ r ∈ failed, r ∈ to) : genOk env failed = true := by
+  unfold genOk
+  cases hu : env.utf8 with
+  | true => rfl
+  | false =>
+    have h := hw hu
+    simp only [Bool.false_or, h.1, Bool.not_false, Bool.true_and, List.all_eq_true]
+    intro r hr
+    simp [h.2 r (hsub r hr)]
+
+def liftMeta (m : Meta) : MetaN := ⟨m.to, m.tries, false, false⟩
+
+/-- With `RcptErrs` non-nil and a well-formed envelope one attempt is the attempt of
+`Model/Queue.lean`: no panic, the same events, the same pending state. -/
+theorem tryDeliveryN_eq (maxTries : Nat) (k : Kind) (dsn : Bool) (env : Env) (p : Plan) (m : MetaN)
+    (he : m.errsNil = false) (hw : env.wellFormed m.to) :
+    tryDeliveryN maxTries k dsn env p m =
+      ((tryDelivery maxTries k dsn p ⟨m.to, m.tries⟩).1.map liftMeta,
+       (tryDelivery maxTries k dsn p ⟨m.to, m.tries⟩).2, false) := by
+  have hg : genOk env (classify maxTries (deliver k p m.to).1 m.to ⟨m.tries, [], []⟩).failedR = true := by
+    apply genOk_of_wellFormed env m.to _ hw
+    intro r hr
+    rcases (classify_mem maxTries (deliver k p m.to).1 m.to ⟨m.tries, [], []⟩).1 r hr with h | h
+    · simp at h
+    · exact h
+  unfold tryDeliveryN tryDelivery
+  simp only [he, Bool.false_and, Bool.false_eq_true, if_false, hg, Bool.not_true, Bool.or_false]
+  split <;> simp [liftMeta, he]
+
+/-- **C01 (restarts are transparent).** For every schedule of restarts — before the first attempt,
+between any two attempts, several in a row — the queue's life of a message accepted through
+`Queue.Start` in a well-formed envelope is event for event the life without restarts, and no attempt
+panics. -/
+theorem runR_eq (maxTries : Nat) (k : Kind) (dsn : Bool) (env : Env) (plans : Nat → Plan)
+    (restarts : Nat → Nat) :
+    ∀ (fuel i : Nat) (m : MetaN), m.errsNil = false → env.wellFormed m.to →
+      runR maxTries k dsn env plans restarts fuel i m =
+        (run maxTries k dsn plans fuel i ⟨m.to, m.tries⟩, false) := by
+  intro fuel
+  induction fuel with
+  | zero => intro i m _ _; rfl
+  | succ fuel ih =>
+    intro i m he hw
+    simp only [runR, run, metaFor_eq, tryDeliveryN_eq maxTries k dsn env (plans i) m he hw]
+    cases hres : tryDelivery maxTries k dsn (plans i) ⟨m.to, m.tries⟩ with
+    | mk om evs =>
+      cases om with
+      | none => simp
+      | some m' =>
+        have hsub : ∀ r ∈ m'.to, r ∈ m.to := by
+          intro r hr
+          have hm : m'.to = (classify maxTries (deliver k (plans i) m.to).1 m.to ⟨m.tries, [], []⟩).newR := by
+            unfold tryDelivery at hres
+            simp only at hres
+            split at hres
+            · cases hres
+            · cases hres; rfl
+          rw [hm] at hr
+          rcases (classify_mem maxTries (deliver k (plans i) m.to).1 m.to ⟨m.tries, [], []⟩).2 r hr with h | h
+          · simp at h
+          · exact h
+        have hw' : env.wellFormed (liftMeta m').to := by
+          intro hu
+          exact ⟨(hw hu).1, fun r hr => (hw hu).2 r (hsub r hr)⟩
+        have := ih (i + 1) (liftMeta m') rfl hw'
+        simp only [liftMeta] at this
+        simp [liftMeta, this]
+
+theorem C01_exactly_one_outcome_with_restarts (maxTries : Nat) (k : Kind) (plans : Nat → Plan)
+    (to : List Addr) (restarts : Nat → Nat) (env : Env)
+    (hmt : 0 < maxTries) (hnd : to.Nodup) (hne : to ≠ []) (hw : env.wellFormed to) :
+    let res := runR maxTries k true env plans restarts maxTries 0 (accepted to)
+    res.2 = false ∧
+    (∀ r ∈ to, (commitCount r res.1 = 1 ∧ reportCount r res.1 = 0) ∨
+               (commitCount r res.1 = 0 ∧ reportCount r res.1 = 1)) ∧
+    (∀ r, r ∉ to → commitCount r res.1 = 0 ∧ reportCount r res.1 = 0) ∧
+    res.1.getLast? = some Ev.removed := by
+  intro res
+  have h : res = (run maxTries k true plans maxTries 0 ⟨to, fun _ => 0⟩, false) :=
+    runR_eq maxTries k true env plans restarts maxTries 0 (accepted to) rfl hw
+  rw [h]
+  exact ⟨rfl, C01_exactly_one_outcome maxTries k plans to hmt hnd hne⟩
+
+/-! ### non-vacuity, and why the two hypotheses are there -/
+
+def demoRestarts : Nat → Nat := fun i => if i = 0 then 1 else if i = 1 then 2 else 0
+def demoEnv : Env := ⟨true, false, fun r => r = 3⟩
+
+example : demoEnv.wellFormed [1, 2, 3] := by intro h; cases h
+
+example :
+    let res := runR 3 .partialD true demoEnv demoPlan demoRestarts 3 0 (accepted [1, 2, 3])
+    res.2 = false ∧ commitCount 2 res.1 = 1 ∧ reportCount 3 res.1 = 1 := by decide
+
+/-- A `.meta` that comes back with `RcptErrs == nil` (what an `omitempty` tag on the field does to the
+empty map `Queue.Start` made): the first failed recipient of an attempt after a restart is a panic,
+nobody is reported, the entry stays behind. -/
+example :
+    let res := runR 3 .atomic true demoEnv (fun _ => { demoPlan 0 with rcpt := fun _ => .temp })
+      (fun _ => 1) 3 0 ⟨[1, 2], fun _ => 0, true, true⟩
+    res.2 = true ∧ reportCount 1 res.1 = 0 ∧ commitCount 1 res.1 = 0 := by decide
+
+/-- A report rendered in the plain format although the address it names has a non-ASCII local
+part is not generated: the recipient is dropped without an outcome. -/
+example :
+    let res := runR 1 .atomic true ⟨false, false, fun r => r = 3⟩ demoPlan (fun _ => 0) 1 0 (accepted [3])
+    res.2 = false ∧ reportCount 3 res.1 = 0 ∧ commitCount 3 res.1 = 0 := by decide
 
 end MaddyVerif.C01
